@@ -26,6 +26,7 @@ fn budget(t: Tier) -> Budget {
         cases: t.pick(300_000, 6_000_000),
         max_len: 140,
         shards: 16,
+        dual_profile: false,
     }
 }
 
